@@ -173,12 +173,63 @@ class Normaliser:
         self.consts: Dict[Tuple[Optional[str], str], ast.AST] = {}
 
     # ------------------------------------------------------------------ discovery
+    @staticmethod
+    def _closure_to_lambda(fd: ast.FunctionDef) -> None:
+        """def f(a): def g(x): return E; return g   ->   def f(a): return lambda x: E"""
+        body = _body_wo_doc(fd)
+        if len(body) == 2 and isinstance(body[0], ast.FunctionDef) and isinstance(body[1], ast.Return) and isinstance(body[1].value, ast.Name) and body[1].value.id == body[0].name:
+            g = body[0]
+            gb = _body_wo_doc(g)
+            a = g.args
+            if len(gb) == 1 and isinstance(gb[0], ast.Return) and gb[0].value is not None and not g.decorator_list and not a.vararg and not a.kwarg:
+                lam_args = copy.deepcopy(a)
+                for x in list(lam_args.posonlyargs) + list(lam_args.args) + list(lam_args.kwonlyargs):
+                    x.annotation = None
+                lam = ast.Lambda(args=lam_args, body=gb[0].value)
+                ret = ast.Return(value=lam)
+                ast.copy_location(ret, body[1])
+                ast.fix_missing_locations(ret)
+                fd.body = [s_ for s_ in fd.body if s_ is not g and s_ is not body[1]] + [ret]
+
     def discover(self) -> None:
+        self.finders: Dict[str, ast.FunctionDef] = {}
         for st in self.tree.body:
-            if isinstance(st, ast.FunctionDef) and "%s.%s" % (self.mod, st.name) not in self.known_funcs and can_inline(st):
+            if isinstance(st, ast.FunctionDef) and "%s.%s" % (self.mod, st.name) not in self.known_funcs:
+                self._closure_to_lambda(st)
+                if self._finder_shape(st) is not None:
+                    self.finders[st.name] = st
+        arity = getattr(self, "arity", {})
+
+        def nargs(fd):
+            return len(fd.args.posonlyargs) + len(fd.args.args) + len(fd.args.kwonlyargs)
+
+        def presumed_renames(scope_prefix: str, present: List[ast.FunctionDef]) -> Set[str]:
+            """new functions of a scope that take the place of a known function that is gone (same number of parameters):
+            presumably the same function under a new name - they are not treated as helpers to inline"""
+            names_now = {f.name for f in present}
+            gone = [q for q in self.known_funcs if q.startswith(scope_prefix) and "." not in q[len(scope_prefix):] and q[len(scope_prefix):] not in names_now]
+            pool = sorted(arity.get(q, -1) for q in gone)
+            out = set()
+            for f in present:
+                if scope_prefix + f.name in self.known_funcs:
+                    continue
+                if nargs(f) in pool:
+                    pool.remove(nargs(f))
+                    out.add(f.name)
+            return out
+        top_funcs = [st for st in self.tree.body if isinstance(st, ast.FunctionDef)]
+        ren_top = presumed_renames(self.mod + ".", top_funcs)
+        for st in self.tree.body:
+            if isinstance(st, ast.FunctionDef) and "%s.%s" % (self.mod, st.name) not in self.known_funcs and st.name not in ren_top and can_inline(st):
                 self.helpers[(None, st.name)] = st
             elif isinstance(st, ast.ClassDef):
+                cprefix = "%s.%s." % (self.mod, st.name)
+                if not any(q.startswith(cprefix) for q in self.known_funcs):
+                    continue  # a class the inventory does not know: its methods are its interface, not helpers
+                ren = presumed_renames(cprefix, [m_ for m_ in st.body if isinstance(m_, ast.FunctionDef)])
                 for s2 in st.body:
+                    if isinstance(s2, ast.FunctionDef) and s2.name in ren:
+                        continue
                     if isinstance(s2, ast.FunctionDef) and "%s.%s.%s" % (self.mod, st.name, s2.name) not in self.known_funcs and can_inline(s2) and not s2.name.startswith("__") or \
                        (isinstance(s2, ast.FunctionDef) and s2.name.startswith("__") and not s2.name.endswith("__") and "%s.%s.%s" % (self.mod, st.name, s2.name) not in self.known_funcs and can_inline(s2)):
                         self.helpers[(st.name, s2.name)] = s2
@@ -258,6 +309,8 @@ class Normaliser:
             nm = e.func.id if isinstance(e.func, ast.Name) else e.func.attr
             if nm in ("frozenset", "tuple") or nm[:1].isupper():
                 return all(self._const_expr(a, depth + 1) for a in e.args)
+            if isinstance(e.func, ast.Name) and (None, nm) in self.helpers:
+                return all(self._const_expr(a, depth + 1) for a in e.args)
         if isinstance(e, ast.BinOp) and isinstance(e.op, (ast.Mult, ast.Add, ast.Sub)):
             return self._const_expr(e.left, depth + 1) and self._const_expr(e.right, depth + 1)
         if isinstance(e, ast.UnaryOp):
@@ -317,20 +370,32 @@ class Normaliser:
         self._cls = cls
         self._cur = fd
         # nested functions are transformed too (their own scope)
-        fd.body = self._block(fd.body, fd)
+        fd.body = self._block(fd.body, fd, top=True)
+        if cls is not None and fd.args.args:
+            # a method taken from a class-level table and called as plain function: NAME(self, a, b) -> self.NAME(a, b)
+            cdef = next((c for c in self.tree.body if isinstance(c, ast.ClassDef) and c.name == cls), None)
+            mnames = {m.name for m in cdef.body if isinstance(m, ast.FunctionDef)} if cdef is not None else set()
+            module_names = {x.name for x in self.tree.body if isinstance(x, (ast.FunctionDef, ast.ClassDef))}
+            selfn = fd.args.args[0].arg
+            for n in _walk_local(fd):
+                if isinstance(n, ast.Call) and isinstance(n.func, ast.Name) and n.func.id in mnames and n.func.id not in module_names and n.func.id not in self._locals(fd) \
+                        and n.args and isinstance(n.args[0], ast.Name) and n.args[0].id == selfn:
+                    n.func = ast.copy_location(ast.Attribute(value=ast.Name(id=selfn, ctx=ast.Load()), attr=n.func.id, ctx=ast.Load()), n.func)
+                    n.args = n.args[1:]
+                    ast.fix_missing_locations(n)
         for n in _walk_local(fd):
             if isinstance(n, ast.FunctionDef):
                 self._func(n, cls)
         return ast.dump(fd) != before
 
     # ------------------------------------------------------------------ statements
-    def _block(self, stmts: List[ast.stmt], fd: ast.FunctionDef) -> List[ast.stmt]:
+    def _block(self, stmts: List[ast.stmt], fd: ast.FunctionDef, top: bool = False) -> List[ast.stmt]:
         out: List[ast.stmt] = []
         i = 0
         stmts = list(stmts)
         while i < len(stmts):
             st = stmts[i]
-            dd = self._dict_dispatch(stmts, i, out, fd)
+            dd = self._dict_dispatch(stmts, i, out, fd, top)
             if dd is not None:
                 out.extend(self._block(dd, fd))
                 return out
@@ -379,7 +444,63 @@ class Normaliser:
                     out.add(root.id)
         return out
 
-    def _dict_dispatch(self, stmts: List[ast.stmt], i: int, prior: List[ast.stmt], fd: ast.FunctionDef) -> Optional[List[ast.stmt]]:
+    def _finder_shape(self, h: ast.FunctionDef):
+        """helper of the form `for k, v in TABLE_PARAM: if isinstance(X_PARAM, k): return v` [+ `return None`]
+        -> (index of the table parameter, index of the subject parameter) or None"""
+        body = _body_wo_doc(h)
+        ps = [a.arg for a in h.args.args]
+        if not body or not isinstance(body[0], ast.For) or len(body) > 2 or h.args.vararg or h.args.kwarg:
+            return None
+        if len(body) == 2 and not (isinstance(body[1], ast.Return) and (body[1].value is None or (isinstance(body[1].value, ast.Constant) and body[1].value.value is None))):
+            return None
+        lp = body[0]
+        if lp.orelse or not (isinstance(lp.iter, ast.Name) and lp.iter.id in ps and isinstance(lp.target, ast.Tuple) and len(lp.target.elts) == 2 and all(isinstance(t, ast.Name) for t in lp.target.elts)):
+            return None
+        k, v = lp.target.elts[0].id, lp.target.elts[1].id
+        if not (len(lp.body) == 1 and isinstance(lp.body[0], ast.If) and not lp.body[0].orelse):
+            return None
+        c = lp.body[0]
+        if not (isinstance(c.test, ast.Call) and isinstance(c.test.func, ast.Name) and c.test.func.id == "isinstance" and len(c.test.args) == 2 and isinstance(c.test.args[0], ast.Name) and c.test.args[0].id in ps
+                and isinstance(c.test.args[1], ast.Name) and c.test.args[1].id == k):
+            return None
+        if not (len(c.body) == 1 and isinstance(c.body[0], ast.Return) and isinstance(c.body[0].value, ast.Name) and c.body[0].value.id == v):
+            return None
+        return ps.index(lp.iter.id), ps.index(c.test.args[0].id)
+
+    def _pair_table(self, e: ast.AST, fd: ast.FunctionDef):
+        """a tuple/list literal of 2-tuples (directly or through a new module constant) -> [(class expr, value expr)]"""
+        if isinstance(e, ast.Name) and (None, e.id) in self.consts and e.id not in self._locals(fd):
+            e = self.consts[(None, e.id)]
+        if not isinstance(e, (ast.Tuple, ast.List)) or not e.elts or len(e.elts) > MAX_UNROLL:
+            return None
+        out = []
+        for el in e.elts:
+            if not (isinstance(el, (ast.Tuple, ast.List)) and len(el.elts) == 2):
+                return None
+            out.append((el.elts[0], el.elts[1]))
+        return out
+
+    def _first_match(self, v: ast.AST, fd: ast.FunctionDef):
+        """`FINDER(TABLE, X)` / `next((h for k, h in TABLE if isinstance(X, k)), None)` -> (subject expr, [(class, value)]) or None"""
+        if isinstance(v, ast.Call) and isinstance(v.func, ast.Name) and v.func.id in self.finders and v.func.id not in self._locals(fd) and not v.keywords:
+            h = self.finders[v.func.id]
+            shape = self._finder_shape(h)
+            if shape is not None and len(v.args) == len(h.args.args):
+                pairs = self._pair_table(v.args[shape[0]], fd)
+                if pairs is not None and _simple(v.args[shape[1]]):
+                    return v.args[shape[1]], pairs
+        if isinstance(v, ast.Call) and isinstance(v.func, ast.Name) and v.func.id == "next" and len(v.args) == 2 and isinstance(v.args[1], ast.Constant) and v.args[1].value is None \
+                and isinstance(v.args[0], ast.GeneratorExp) and len(v.args[0].generators) == 1:
+            g = v.args[0].generators[0]
+            if isinstance(g.target, ast.Tuple) and len(g.target.elts) == 2 and all(isinstance(t, ast.Name) for t in g.target.elts) and len(g.ifs) == 1 and isinstance(v.args[0].elt, ast.Name) and v.args[0].elt.id == g.target.elts[1].id:
+                c = g.ifs[0]
+                if isinstance(c, ast.Call) and isinstance(c.func, ast.Name) and c.func.id == "isinstance" and len(c.args) == 2 and isinstance(c.args[1], ast.Name) and c.args[1].id == g.target.elts[0].id and _simple(c.args[0]):
+                    pairs = self._pair_table(g.iter, fd)
+                    if pairs is not None:
+                        return c.args[0], pairs
+        return None
+
+    def _dict_dispatch(self, stmts: List[ast.stmt], i: int, prior: List[ast.stmt], fd: ast.FunctionDef, top: bool = False) -> Optional[List[ast.stmt]]:
         """`T = D.get(K)` / `T = D[K]` with D a dict literal of constant keys, followed by the rest of the block:
         rewritten as  if K == k1: <rest with T := v1> elif ... else: <rest with T := None | raise KeyError(K)>."""
         st = stmts[i]
@@ -394,11 +515,21 @@ class Normaliser:
             key, dexpr, has_default = v.args[0], v.func.value, True
         elif isinstance(v, ast.Subscript) and isinstance(v.ctx, ast.Load):
             key, dexpr = v.slice, v.value
-        if key is None or not _simple(key) or isinstance(key, ast.Constant):
-            return None
-        d = self._dict_literal(dexpr, prior, fd)
-        if d is None:
-            return None
+        fm = self._first_match(v, fd) if key is None else None
+        if fm is not None:
+            subject, pairs = fm
+            has_default = True
+            tests = [ast.Call(func=ast.Name(id="isinstance", ctx=ast.Load()), args=[copy.deepcopy(subject), copy.deepcopy(k)], keywords=[]) for k, _ in pairs]
+            values = [val for _, val in pairs]
+            key = subject
+        else:
+            if key is None or not _simple(key) or isinstance(key, ast.Constant):
+                return None
+            d = self._dict_literal(dexpr, prior, fd)
+            if d is None:
+                return None
+            tests = [ast.Compare(left=copy.deepcopy(key), ops=[ast.Eq()], comparators=[copy.deepcopy(k)]) for k in d.keys]
+            values = list(d.values)
         rest = stmts[i + 1:]
         if not rest or len(rest) > 12:
             return None
@@ -406,13 +537,13 @@ class Normaliser:
         if sum(1 for n in _walk_local(fd) if isinstance(n, ast.Name) and n.id == tgt.id and isinstance(n.ctx, ast.Store)) != 1:
             return None
         # the rest must end the block's control flow (so that duplicating it is the whole continuation)
-        if not isinstance(rest[-1], (ast.Return, ast.Raise)):
+        if not isinstance(rest[-1], (ast.Return, ast.Raise)) and not top:
             return None
         chain: Optional[ast.If] = None
         branches = []
-        for k, val in zip(d.keys, d.values):
+        for test, val in zip(tests, values):
             body = [_Rename({tgt.id: val}, {}).visit(copy.deepcopy(s_)) for s_ in rest]
-            branches.append((ast.Compare(left=copy.deepcopy(key), ops=[ast.Eq()], comparators=[copy.deepcopy(k)]), body))
+            branches.append((test, body))
         if has_default:
             tail = [_Rename({tgt.id: ast.Constant(value=None)}, {}).visit(copy.deepcopy(s_)) for s_ in rest]
         else:
@@ -430,6 +561,8 @@ class Normaliser:
     def _fold(self, node: ast.AST) -> ast.AST:
         """constant-fold `X is None` / `X is not None` for X a lambda, a method/function reference or a constant,
         and prune `if True/False` made by it"""
+        fn_names = {st_.name for st_ in self.tree.body if isinstance(st_, ast.FunctionDef)}
+
         class F(ast.NodeTransformer):
             def visit_Compare(self, n):
                 self.generic_visit(n)
@@ -438,7 +571,7 @@ class Normaliser:
                     val = None
                     if isinstance(l, ast.Constant):
                         val = l.value is None
-                    elif isinstance(l, (ast.Lambda, ast.Attribute)):
+                    elif isinstance(l, (ast.Lambda, ast.Attribute)) or (isinstance(l, ast.Name) and l.id in fn_names):
                         val = False
                     if val is not None:
                         return ast.copy_location(ast.Constant(value=(val if isinstance(n.ops[0], ast.Is) else not val)), n)
@@ -797,7 +930,7 @@ class Normaliser:
                 mapping[tgt.id] = el
             elif isinstance(tgt, (ast.Tuple, ast.List)) and isinstance(el, (ast.Tuple, ast.List)) and len(el.elts) == len(tgt.elts) and all(isinstance(t, ast.Name) for t in tgt.elts):
                 for t, x in zip(tgt.elts, el.elts):
-                    if not (_simple(x) or isinstance(x, ast.Constant)):
+                    if not (_simple(x) or isinstance(x, (ast.Constant, ast.Lambda)) or (isinstance(x, (ast.Tuple, ast.List)) and all(_simple(y) for y in x.elts)) or _uses(st.body, t.id) <= 1):
                         return None
                     mapping[t.id] = x
             else:
@@ -815,9 +948,10 @@ class Normaliser:
         return out
 
 
-def normalise_module(tree: ast.Module, modname: str, known_funcs: Set[str], known_names: Set[str], external_refs: Optional[Set[str]] = None) -> Tuple[ast.Module, List[str]]:
+def normalise_module(tree: ast.Module, modname: str, known_funcs: Set[str], known_names: Set[str], external_refs: Optional[Set[str]] = None, arity: Optional[Dict[str, int]] = None) -> Tuple[ast.Module, List[str]]:
     n = Normaliser(tree, modname, known_funcs, known_names)
     n.external_refs = external_refs or set()
+    n.arity = arity or {}
     try:
         t = n.run()
     except RecursionError:
